@@ -254,6 +254,37 @@ pub fn expect_iter(case: &IterCase, entries: &[(Vec<u8>, Vec<u8>)]) -> Vec<Exp> 
         "Reader::new",
         Res::Meta { len: entries.len() as u64, codec: case.spec.knobs.codec, version: if case.v1 { 0 } else { 1 } },
     )];
+    if case.interleave {
+        let name = |q: &Query| match q {
+            Query::Range { rev: false, .. } => "into_range_iter",
+            Query::Range { rev: true, .. } => "into_rev_range_iter",
+            Query::Prefix { rev: false, .. } => "into_prefix_iter",
+            Query::Prefix { rev: true, .. } => "into_rev_prefix_iter",
+        };
+        for pair in case.queries.chunks(2) {
+            let lists: Vec<Vec<usize>> = pair.iter().map(|q| query_matches(q, entries)).collect();
+            for q in pair {
+                x.push(e(name(q), Res::Unit));
+            }
+            let mut at = vec![0usize; pair.len()];
+            let mut done = vec![false; pair.len()];
+            while done.iter().any(|d| !*d) {
+                for j in 0..pair.len() {
+                    if done[j] {
+                        continue;
+                    }
+                    if at[j] < lists[j].len() {
+                        x.push(e("iter.next", ent(entries, Some(lists[j][at[j]]))));
+                        at[j] += 1;
+                    } else {
+                        x.push(e("iter.next", Res::None));
+                        done[j] = true;
+                    }
+                }
+            }
+        }
+        return x;
+    }
     for q in &case.queries {
         let name = match q {
             Query::Range { rev: false, .. } => "into_range_iter",
@@ -276,6 +307,7 @@ pub fn merge_model(mf: MergeKind, vals: &[Vec<u8>]) -> Vec<u8> {
         MergeKind::Concat => vals.concat(),
         MergeKind::First => vals[0].clone(),
         MergeKind::Last => vals[vals.len() - 1].clone(),
+        MergeKind::Join => vals.join(&0x1Fu8),
     }
 }
 
